@@ -434,7 +434,7 @@ class Modes(Part):
 class C10(Prop):
     id = 'C10'
     registered = True
-    technique = 'exhaustive enumeration of layer DAGs (<=4) x bases orders x subsets x input permutations x 4 hash seeds; Hypothesis DAGs beyond; metamorphic end-to-end re-runs'
+    technique = 'exhaustive enumeration of layer DAGs (<=4) x bases orders x subsets x input permutations x 4 hash seeds; Hypothesis DAGs beyond; metamorphic end-to-end re-runs (modules renamed/reordered, listing vs. run); -j N runs: announced order, one subprocess per layer, slot law over trace time stamps'
     level_text = 'order_by_bases is evaluated on every DAG with <=4 layers in every input permutation and under four PYTHONHASHSEEDs and must return the same permutation with unit layer first and bases first; generated worlds are run twice with modules renamed/reordered and must print the same layer sequence, each layer once and contiguous; -j N runs must announce the same order, run each layer in exactly one subprocess and hand out the N slots in that order.'
     level_note = 'Exhaustive only inside the stated bound; layer names are distinct; helper interpreters are trusted to run the same code.'
     rule = ('func: exhaustive DAGs on <=4 layers x bases-tuple orders x instance/class layers x selected subsets '
